@@ -224,9 +224,9 @@ Proof.
 Qed.
 
 Lemma unregistered_rejected :
-  forall arg0 pco args p, p_unreg p <> [] -> app_argv arg0 pco args p = inr RLateUnknown.
+  forall ex arg0 pco args p, p_unreg p <> [] -> app_argv ex arg0 pco args p = inr RLateUnknown.
 Proof.
-  intros arg0 pco args p H. unfold app_argv. destruct (p_unreg p); [congruence|reflexivity].
+  intros ex arg0 pco args p H. unfold app_argv. destruct (p_unreg p); [congruence|reflexivity].
 Qed.
 
 (* an unknown --name[=value] token (not an abbreviation of a registered option) that the parser
@@ -687,6 +687,80 @@ Proof.
   induction Hn; cbn [map]; constructor; [|assumption]. now apply nobs_chunk.
 Qed.
 
+(* ---- no dollar sign in the rebuilt line: reading the ini entry back expands nothing *)
+Fixpoint nodl (s : string) : bool :=
+  match s with EmptyString => true | String c r => negb (aeqb c c_dollar) && nodl r end.
+
+Lemma nodl_app a b : nodl (a ++ b) = nodl a && nodl b.
+Proof. induction a; cbn; [reflexivity|]. rewrite IHa. now rewrite andb_assoc. Qed.
+Lemma safe_nodl s : all_safe s = true -> nodl s = true.
+Proof.
+  induction s as [|c s IH]; intros H; [reflexivity|]. apply all_safe_cons in H. destruct H as [Hc H].
+  cbn [nodl]. rewrite IH by assumption. destruct (safe_char_inv _ Hc) as (_ & _ & _ & E). now rewrite E.
+Qed.
+Lemma nodl_embed v : all_safe v = true -> nodl (embed_in_quotes v) = true.
+Proof.
+  intros H. apply safe_nodl in H. unfold embed_in_quotes.
+  destruct (contains c_space v || contains c_tab v); [|assumption].
+  destruct (contains c_dq v); rewrite !nodl_app, H; reflexivity.
+Qed.
+Lemma nodl_add_as_option k v : nodl k = true -> nodl v = true -> nodl (add_as_option k v) = true.
+Proof.
+  intros Hk Hv. unfold add_as_option. rewrite !nodl_app, Hk. destruct v; [reflexivity|].
+  rewrite nodl_app, Hv. reflexivity.
+Qed.
+Lemma nodl_concat l : Forall (fun s => nodl s = true) l -> nodl (String.concat "" l) = true.
+Proof.
+  induction 1 as [|x l Hx _ IH]; [reflexivity|]. rewrite concat_cons_s, nodl_app, Hx, IH. reflexivity.
+Qed.
+Lemma nodl_items n vs : nodl n = true -> Forall (fun v => all_safe v = true) vs ->
+  nodl (String.concat "" (map (fun v => add_as_option n (embed_in_quotes v)) vs)) = true.
+Proof.
+  intros Hn H. apply nodl_concat. induction H; cbn [map]; constructor; [|assumption].
+  apply nodl_add_as_option; [assumption|now apply nodl_embed].
+Qed.
+Lemma nodl_chunk p n : nodl n = true -> opts_safe p -> Forall (fun v => all_safe v = true) (p_pos p) ->
+  nodl (chunk_text p n) = true.
+Proof.
+  intros Hn Ho Hp. unfold chunk_text.
+  assert (V : forall v, value_of n p = Some v -> nodl (add_as_option n (embed_in_quotes v)) = true).
+  { intros v E. apply nodl_add_as_option; [assumption|]. apply nodl_embed. eapply value_of_safe; eassumption. }
+  destruct (String.eqb n "pika:positional"); [now apply nodl_items|].
+  destruct (kind_of n) as [[|[|[|[|k]]]]|]; try reflexivity.
+  - destruct (value_of n p) eqn:E; [now apply V|].
+    destruct (String.eqb n "pika:config"); [|reflexivity]. now apply nodl_add_as_option.
+  - apply nodl_items; [assumption|]. now apply values_of_safe.
+  - destruct (String.eqb n "pika:attach-debugger"); [|reflexivity].
+    destruct (value_of n p) eqn:E; [now apply V|reflexivity].
+Qed.
+Lemma nodl_reconstruct p : Forall (fun n => nodl n = true) (vm_names p) -> opts_safe p ->
+  Forall (fun v => all_safe v = true) (p_pos p) -> nodl (reconstruct p) = true.
+Proof.
+  intros Hn Ho Hp. rewrite reconstruct_chunks. apply nodl_concat.
+  induction Hn; cbn [map]; constructor; [|assumption]. now apply nodl_chunk.
+Qed.
+Lemma nodl_ltrim s : nodl s = true -> nodl (ltrim s) = true.
+Proof.
+  induction s as [|c s IH]; intros H; [reflexivity|]. cbn [ltrim]. destruct (is_ws c); [|exact H].
+  apply IH. cbn [nodl] in H. apply andb_true_iff in H. tauto.
+Qed.
+Lemma nodl_rev_str : forall s acc, nodl s = true -> nodl acc = true -> nodl (rev_str s acc) = true.
+Proof.
+  induction s as [|c s IH]; intros acc H A; [exact A|]. cbn [rev_str]. cbn [nodl] in H. apply andb_true_iff in H.
+  destruct H as [Hc Hs]. apply IH; [exact Hs|]. cbn [nodl]. now rewrite Hc, A.
+Qed.
+Lemma nodl_trim s : nodl s = true -> nodl (trim s) = true.
+Proof.
+  intros H. unfold trim. apply nodl_rev_str; [|reflexivity]. apply nodl_ltrim. apply nodl_rev_str; [|reflexivity].
+  now apply nodl_ltrim.
+Qed.
+(* get_config_entry's expansion leaves a value without a dollar sign alone *)
+Lemma expand_entry_nodl env look : forall s, nodl s = true -> expand_entry env look s = s.
+Proof.
+  induction s as [|c s IH]; intros H; [reflexivity|]. cbn [nodl] in H. apply andb_true_iff in H. destruct H as [Hc Hs].
+  apply negb_true_iff in Hc. cbn [expand_entry]. rewrite Hc, IH by assumption. reflexivity.
+Qed.
+
 Lemma esc_dq_id s : contains c_dq s = false -> esc_dq s = s.
 Proof.
   induction s as [|c s IH]; intros H; [reflexivity|]. cbn [contains] in H. apply orb_false_iff in H. destruct H as [H1 H2].
@@ -780,6 +854,7 @@ Definition POS := "pika:positional".
 Definition differ (a b : string) : bool := negb (String.prefix a b) && negb (String.prefix b a).
 
 Lemma tbl_plain : forallb plain tbl = true. Proof. vm_compute. reflexivity. Qed.
+Lemma tbl_nodl : forallb nodl tbl = true. Proof. vm_compute. reflexivity. Qed.
 Lemma tbl_pika : forallb (starts "pika:") tbl = true. Proof. vm_compute. reflexivity. Qed.
 Lemma tbl_pos : forallb (fun k => String.eqb k POS || differ POS k) tbl = true. Proof. vm_compute. reflexivity. Qed.
 
@@ -965,6 +1040,12 @@ Proof.
   rewrite forallb_forall in P. now apply P.
 Qed.
 
+Lemma srt_nodl l : srt l -> Forall (fun n => nodl n = true) l.
+Proof.
+  intros [_ F]. eapply Forall_impl; [|exact F]. intros n Hn. pose proof tbl_nodl as P.
+  rewrite forallb_forall in P. now apply P.
+Qed.
+
 (* ---- what the parser puts into p_pos / p_opts *)
 Definition pinv (p : parsed) : Prop :=
   Forall (fun v => arg_safe v = true) (p_pos p) /\ opts_safe p /\ opts_named p.
@@ -1054,7 +1135,7 @@ Qed.
 Lemma run_started_argv env m arg0 args c : run env m arg0 args = Started c ->
   exists pre p, tok_prepend (builtin env "pika.commandline.prepend_options") = Some pre /\
     parse_tokens (S (length (pre ++ args))) (pre ++ args) false p_empty = inl p /\
-    app_argv arg0 (builtin env "pika.commandline.prepend_options") args p = inl (Some (c_argv c)).
+    exists look, app_argv (expand_entry env look) arg0 (builtin env "pika.commandline.prepend_options") args p = inl (Some (c_argv c)).
 Proof.
   unfold run. intros H.
   destruct (tok_prepend _) as [pre|]; [|discriminate].
@@ -1063,7 +1144,8 @@ Proof.
   destruct (negb (numeric_ok p)); [discriminate|].
   destruct (existsb _ (p_opts p)); [discriminate|].
   match type of H with (if ?b then _ else _) = _ => destruct b; [discriminate|] end.
-  apply handle_started_argv in H. exists pre, p. repeat split; assumption.
+  cbv zeta in H. apply handle_started_argv in H. exists pre, p. repeat split; try assumption.
+  eexists. exact H.
 Qed.
 
 Lemma pinv_empty : pinv p_empty.
@@ -1076,7 +1158,7 @@ Theorem app_args_unchanged env m arg0 args pre c :
   exists p, parse_tokens (S (length (pre ++ args))) (pre ++ args) false p_empty = inl p /\
             p_unreg p = [] /\ c_argv c = p_pos p.
 Proof.
-  intros Hpre Ha Hs Hrun. destruct (run_started_argv _ _ _ _ _ Hrun) as (pre' & p & E1 & E2 & E3).
+  intros Hpre Ha Hs Hrun. destruct (run_started_argv _ _ _ _ _ Hrun) as (pre' & p & E1 & E2 & look & E3).
   rewrite Hpre in E1. inversion E1; subst pre'. exists p. split; [assumption|].
   assert (I : pinv p).
   { eapply parse_inv; [exact E2| |exact pinv_empty]. apply Forall_forall. rewrite forallb_forall in Hs. exact Hs. }
@@ -1088,6 +1170,10 @@ Proof.
   { eapply Forall_impl; [|exact Ipos]. intros v. apply arg_safe_all. }
   assert (Ipos_n : Forall (fun v => nonempty v = true) (p_pos p)).
   { eapply Forall_impl; [|exact Ipos]. intros v Hv. unfold arg_safe in Hv. apply andb_true_iff in Hv. tauto. }
+  assert (ND : nodl (trim (encode_and_enquote arg0 ++ " " ++ reconstruct p ++ " ")) = true).
+  { apply nodl_trim. rewrite enc_embed by (now apply arg_safe_all). rewrite !nodl_app, nodl_embed by (now apply arg_safe_all).
+    rewrite nodl_reconstruct; [reflexivity|apply srt_nodl; exact S|exact Isafe|exact Ipos_s]. }
+  rewrite (expand_entry_nodl env look _ ND) in E3.
   rewrite (split_rebuilt_line arg0 p Ha (srt_plain _ S) Isafe Ipos_s) in E3.
   inversion E3 as [E]. cbn [tl]. rewrite af_names by (assumption || apply S).
   destruct (p_pos p) as [|v0 l0] eqn:Ep.
